@@ -12,6 +12,7 @@ import Driver.LockTrace
 import Driver.Zip
 import Driver.KvLin
 import Driver.Monitors
+import Driver.WaitTrace
 
 def main (args : List String) : IO UInt32 := do
   match args with
@@ -28,4 +29,5 @@ def main (args : List String) : IO UInt32 := do
   | ["zip"] => Drv.run DrvZip.comp
   | ["kvlin"] => Drv.run DrvKvLin.comp
   | ["monitors"] => Drv.run DrvMonitors.comp
+  | ["waittrace"] => Drv.run DrvWaitTrace.comp
   | _ => IO.eprintln "usage: driver <component>"; return 2
